@@ -1149,6 +1149,80 @@ def enum_minmax_terminated():
                         yield comp, {"t": v, "y": 0xA5}
 
 
+def enum_masked_holes():
+    """non-condensed BIT-MASKs with holes (cleared bits between set ones) on 16/24/32 bit integers and byte fields, both byte orders, with a
+    second parameter positioned INTO the hole (whole byte or nibble), in both listing orders, in `[sid, m @1, h @hole]` / `[sid, h, m]`;
+    yields (composite, value). (An object's used bits are its mask — not a contiguous bit string.)"""
+    n = 0
+    masks = [(24, 0xFF00FF), (24, 0xF000FF), (32, 0xFF0000FF), (32, 0xFFFF00FF), (16, 0xF00F), (16, 0xFF00), (24, 0x00FFFF), (32, 0x80FF0001)]
+    for bl, mask in masks:
+        nbytes = bl // 8
+        for bt in ("A_UINT32", "A_BYTEFIELD"):
+            for hl in ((None, False) if bt == "A_UINT32" else (None,)):
+                wire = list(mask.to_bytes(nbytes, "big"))
+                if hl is False:
+                    wire.reverse()
+                # a hole parameter: a whole byte where the wire mask is 00, else a nibble where it is 0x0_/0x_0
+                hole = None
+                for i, mb in enumerate(wire):
+                    if mb == 0x00:
+                        hole = (1 + i, None, 8, 0x56)
+                        break
+                if hole is None:
+                    for i, mb in enumerate(wire):
+                        if mb & 0xF0 == 0:
+                            hole = (1 + i, 4, 4, 0x5)
+                            break
+                        if mb & 0x0F == 0:
+                            hole = (1 + i, 0, 4, 0x6)
+                            break
+                if hole is None:
+                    continue
+                mdop = D.SimpleDop(D.Std(bt, bl, None, hl, mask=mask), bt)
+                hdop = D.u8(hole[2])
+                for order in ("mh", "hm"):
+                    for mv in (mask, 0x123456789A & mask, (1 << bl) - 1):
+                        n += 1
+                        pm = D.value("m", mdop, bytepos=1)
+                        ph = D.value("h", hdop, bytepos=hole[0], bitpos=hole[1])
+                        ps = [D.sid()] + ([pm, ph] if order == "mh" else [ph, pm])
+                        v = (mv & mask) if bt == "A_UINT32" else (mv & mask).to_bytes(nbytes, "big")
+                        yield D.Composite(f"H{n}", "request", ps), {"m": v, "h": hole[3]}
+
+
+def enum_field_layouts():
+    """fields at a non-zero position inside their structure with a sibling that is LISTED behind the field but LOCATED before it (explicit
+    BYTE-POSITION), and the control with the sibling listed first; field kinds static / dynamic-length (count at 0, OFFSET 1 or 2: with and
+    without a gap) / end-of-PDU; 0, 1, 2 items (the empty field is the interesting one: nothing is written, yet cursor and origin must
+    be left as after any other item count); at top level and inside a structure at offset 1; yields (composite, value)"""
+    n = 0
+    item = lambda: D.Struct([D.value("a", D.u8()), D.value("b", D.u8(16))])
+    for kind in ("static0", "static1", "static2", "dyn1", "dyn2", "eop"):
+        for count in (0, 1, 2):
+            if kind.startswith("static"):
+                if int(kind[-1]) != count:
+                    continue
+                fld = D.StaticField(count, 4, item())
+            elif kind.startswith("dyn"):
+                fld = D.DynLenField(int(kind[-1]), 0, None, D.u8(), item())
+            else:
+                fld = D.EopField(item())
+            vals = [{"a": 0x10 + i, "b": 0x2000 + i} for i in range(count)]
+            for order in ("field-first", "sibling-first"):
+                for nested in (False, True):
+                    n += 1
+                    pf = D.value("f", fld, bytepos=2)
+                    pz = D.value("z", D.u8(), bytepos=1)
+                    inner = [pf, pz] if order == "field-first" else [pz, pf]
+                    if nested:
+                        ps = [D.sid(), D.value("o", D.u8()), D.value("s", D.Struct([D.value("h", D.u8())] + inner))]
+                        val = {"o": 0x33, "s": {"h": 0x44, "f": vals, "z": 0x5A}}
+                    else:
+                        ps = [D.sid()] + inner
+                        val = {"f": vals, "z": 0x5A}
+                    yield D.Composite(f"FL{n}", "request", ps), val
+
+
 # ------------------------------------------------------------------ measured input distribution
 def features(comp):
     """histogram keys of a composite: (histogram name, key) pairs"""
